@@ -50,6 +50,23 @@ impl ClassBody {
 
         for member in features {
             let ty = ClassFeature::type_from_node(&member)?;
+
+            // Members are looked up by name, first match, while the class body stores them top to
+            // bottom, last store wins: two members with one name would be typed as the first and
+            // behave as the last. (A second constructor has its own diagnostic in `class_body`.)
+            if member.as_rule() != Rule::class_constructor
+                && fields.iter().any(|field: &Ident| field.name() == ty.name())
+            {
+                return Err(new_err(
+                    member.as_span(),
+                    &input.user_data().get_source_file_name(),
+                    format!(
+                        "a member named `{}` is already declared in this class",
+                        ty.name()
+                    ),
+                ));
+            }
+
             fields.push(ty);
         }
 
